@@ -21,7 +21,9 @@ k <= N and *every* splitting of a run is executed:
      carried over between the parts of a split run;
  (c) callbacks   every solver of the anchored files: the callback is called exactly once per
      iteration (per inner step where ``callback_loop='inner'`` is documented), record k is
-     bit-for-bit the iterate after exactly k iterations, the final x is the last record.
+     bit-for-bit the iterate after exactly k iterations, the final x is the last record; this
+     holds whatever the truth value of the callback object (plain function, fresh empty
+     CallbackStore, callable with __bool__ False).
 
 No expected value is stored anywhere: all oracles are differential (optimised vs shipped
 reference) or confluence (different histories of the same code).  Problem objects (operators,
@@ -1058,6 +1060,7 @@ def configs(tier):
     N = 8 if deep else 5
     ops = DOPS if deep else QOPS
     groups = GROUPS_D if deep else GROUPS_Q
+    sq = SQOPS if deep else SQOPS[:2]
     cfgs = []
 
     def add(dev, **kw):
@@ -1110,14 +1113,14 @@ def configs(tier):
             for f in _pool('T', deep):
                 add(1, solver='prox_dca', space=sp, g=g, f=f)
     # (a) alternating dual updates, one block
-    for L in DOPS + ['D3', 'I4'] + SQOPS:
+    for L in DOPS + ['D3', 'I4'] + sq:
         for g in (FPOOL[RKIND[L]] if deep or L not in SQOPS else SHORT[RKIND[L]]):
             for k in _ss_kinds(g, RKIND[L]):
                 add(FULL if not deep else 2, solver='adupdates',
                     blocks=[{'L': L, 'g': g, 'ss': k}])
     # large pools (inner alphabet: at most one deviation from the default instance) ----------
     # (a) linearized ADMM: every operator x every f on its domain x every g on its range
-    for L in ops + SQOPS:
+    for L in ops + sq:
         for f, g in _fg_pairs(L, deep):
             add(1, solver='admm_linearized', L=L, f=f, g=g)
     # (a) alternating dual updates, two blocks (fixed order; equal ranges share the temporary)
@@ -1154,7 +1157,7 @@ def configs(tier):
         add(1, solver='adupdates',
             blocks=[{'L': L, 'g': g, 'ss': 'scalar'} for L, g in zip(tri, gg)])
     # (a) double-proximal d.c.
-    for L in ops + SQOPS:
+    for L in ops + sq:
         for phi in SMOOTH:
             if phi == 'Huber' and DKIND.get(L, 'T') != 'T':
                 continue
@@ -1164,10 +1167,10 @@ def configs(tier):
                     continue
                 add(1, solver='doubleprox_dc', L=L, f=f, phi=phi, g=g)
     # (b) pdhg with the state passed back; (c) accelerated variants
-    for L in ops + SQOPS:
+    for L in ops + sq:
         for f, g in _fg_pairs(L, deep):
             add(1, solver='pdhg', L=L, f=f, g=g)
-    for L in ops + SQOPS:
+    for L in ops + sq:
         for f, g in (('L2sqt', 'L1'), ('L2sq', 'L2sqt'), ('Box', 'L2sqt')):
             if g in FPOOL[RKIND[L]]:
                 add(1, solver='pdhg', L=L, f=f, g=g, acc='primal')
@@ -1329,8 +1332,9 @@ def meta(tier):
                 'solver x sign pattern of (last iterate - start) x early-stop flag + '
                 'executed-line signature of the solver functions',
         'bounds': {'N': N, 'steps': cut(STEPS), 'step_pairs': cut(STEP_PAIRS),
-                   'starts': cut(STARTS), 'operators': (DOPS if deep else QOPS),
-                   'operators_small_pools': DOPS + ['D3', 'I4', 'P23', 'P33', 'Sq3', 'Sym3'],
+                   'starts': cut(STARTS), 'operators': (DOPS + SQOPS if deep else QOPS + SQOPS[:2]),
+                   'operators_small_pools': DOPS + SQOPS + ['D3', 'I4', 'P23', 'P33', 'Sq3',
+                                                            'Sym3'],
                    'functionals': dict((k, _pool(k, deep)) for k in FPOOL),
                    'smooth_terms': SMOOTH + ['LS'],
                    'three_way_splits': 'default instance of every state; all instances of the '
@@ -1363,6 +1367,18 @@ def meta(tier):
             'kaczmarz has no shipped reference: the reference loop replays the orders the solver '
             'drew (one per outer iteration, as documented) with single fixed-order steps'
             % (SEEDS,),
+            'callback alphabet: a plain function for every instance; for the first instance of '
+            'every callback position class of a state additionally a fresh empty '
+            'odl.solvers.CallbackStore() (falsy while empty) and a callable with __bool__ False / '
+            '__len__ 0: both must be called exactly as often as the plain function and see the '
+            'same iterates',
+            'operator alphabet includes square operators whose adjoint / evaluation is not safe '
+            'with out aliased to the input (PartialDerivative forward/constant and '
+            'backward/symmetric, a 2x2 ProductSpaceOperator with off-diagonal blocks), so that a '
+            'solver sharing its domain and range temporaries differs from its reference',
+            'pdhg (not accelerated) is additionally compared, per iterate and for x, x_relax, y, '
+            'with a naive out-of-place loop of the iteration documented in '
+            'doc/source/math/solvers/nonsmooth/pdhg.rst (1e-12 x magnitude)',
             'mlem / osmlem: the sensitivities object (float, element, caller-owned list) is ONE '
             'object per instance reused by all calls, as a caller resuming a run would do',
         ],
